@@ -1,5 +1,5 @@
 """Stage for the generated forwarders and small functions that no property owns:
-    Gen/Wrappers.v  (tools/gen/wrappers.py)   thin wrappers of `impl SPDC`, spdc::efficiencies        -> Proofs/Compose_wrappers(.eff).v
+    Gen/W_*.v       (tools/gen/wrappers.py)   thin wrappers of `impl SPDC`, spdc::efficiencies (one file each) -> Proofs/Compose_wrappers_{c03,eff,misc}.v
     Gen/GridRes.v   (tools/gen/gridres.py)    set_/with_resolution, SumDiffFrequencySpace::new, Steps2D::new/ranges -> Proofs/Compose_gridres.v
     Gen/PMSimple.v  (tools/gen/pmsimple.py)   math::{tan,csc,cot,sinc}, gaussian_pm, phasematch_sinc/gaussian,
                                               integration_steps_best_guess                         -> Proofs/Compose_pmsimple.v
@@ -20,14 +20,21 @@ S5  SPDC::delta_k(omega_s, omega_i) is bit-identical with spdcalc::delta_k(omega
 import math
 
 from vlib.common import *
+from vlib import auxprops
 
 STAGE = "wrappers"
-FILES = ["Proofs/Compose_wrappers.vo", "Proofs/Compose_wrappers_eff.vo", "Proofs/Compose_gridres.vo", "Proofs/Compose_pmsimple.vo",
-         "Proofs/Compose_pmsimple_cases.vo"]
-GENERATORS = ["wrappers", "gridres", "pmsimple"]
+AUX = "auxiliary model (wrappers / simple phase-matching functions) no longer corresponds: "
+FILES = ["Proofs/Compose_wrappers_c03.vo", "Proofs/Compose_wrappers_eff.vo", "Proofs/Compose_wrappers_misc.vo", "Proofs/Compose_gridres.vo",
+         "Proofs/Compose_pmsimple.vo", "Proofs/Compose_pmsimple_cases.vo"]
+W_C03 = ["wrapbase", "wrap_SPDC_delta_k", "wrap_SPDC_optimum_idler", "wrap_SPDC_assign_optimum_idler", "wrap_SPDC_assign_optimum_crystal_theta"]
+W_EFF = ["wrapbase", "wrap_SPDC_efficiencies", "wrap_efficiencies", "wrap_SPDC_counts_coincidences", "wrap_SPDC_counts_singles_signal",
+         "wrap_SPDC_counts_singles_idler"]
+GENERATORS = ["wrapbase", "wrap_*", "gridres", "pmsimple"]
+# clauses that literally are in a host property's text (only these may be reported with a failing input, and only under that property)
+HOST_CLAUSE = {"wrapper_delta_k": "C03", "wrapper_efficiencies": "C08"}
 # what a property's pipeline asks for: part -> (lemma files built here, generators whose refusals are this part's broken obligations, harness op)
-PARTS = {"delta_k": (["Proofs/Compose_wrappers.vo", "Proofs/Compose_pmsimple_cases.vo"], ["wrappers", "pmsimple"], "pms"),
-         "efficiencies": (["Proofs/Compose_wrappers_eff.vo"], ["wrappers"], "effchain"),
+PARTS = {"delta_k": (["Proofs/Compose_wrappers_c03.vo", "Proofs/Compose_pmsimple_cases.vo"], W_C03 + ["pmsimple"], "pms"),
+         "efficiencies": (["Proofs/Compose_wrappers_eff.vo"], W_EFF, "effchain"),
          "all": (FILES, GENERATORS, "both")}
 IMPORTS = "From Coq Require Import ZArith.\nFrom SpdVerif Require Import Base.Rx Base.Vec3 Gen.PMSimple Proofs.Compose_pmsimple Proofs.Compose_pmsimple_cases.\n"
 TOL_PM, TOL_FN, TOL_TRIG = "1e-12", "1e-14", "1e-13"
@@ -59,6 +66,13 @@ def oracle(ctx, obs):
     effchain: SPDC::efficiencies = efficiencies = efficiencies_from_counts(coincidences, signal singles, idler singles), the rates through the
     methods and through the free functions of counts.rs, bit for bit.  Returns (usable pms observations, number sensitive to a frequency exchange)."""
     good, sensitive = [], 0
+
+    def report(stage, what, sig, det):
+        """a clause of the host property's text keeps its failing input; anything else is a broken correspondence of an auxiliary model"""
+        if HOST_CLAUSE.get(sig["kind"]) == ctx.prop:
+            ctx.violation(stage, what, sig, det)
+        else:
+            ctx.violation(stage, AUX + what, sig, det, found_input=False)
     for o in obs:
         kind = o.get("kind")
         if kind not in ("pms", "effchain"):
@@ -69,9 +83,9 @@ def oracle(ctx, obs):
             ctx.seen(("effchain", o["L"], o["waist"], o["resolution"], o["divs"]))
             ctx.count("effchain")
             if not o.get("ok"):
-                ctx.violation("S5", f"SPDC::efficiencies / counts_* panic: {o.get('panic')}", {"kind": "effchain_panic"}, det)
+                report("S5", f"SPDC::efficiencies / counts_* panic: {o.get('panic')}", {"kind": "effchain_panic"}, det)
             elif o["method"] != o["free"] or o["method"] != o["from_counts"] or o["rates_method"] != o["rates_free"] or o["method"][3:] != o["rates_method"]:
-                ctx.violation("S5", "SPDC::efficiencies(ranges, integrator) is not efficiencies_from_counts(counts_coincidences, counts_singles_signal, "
+                report("S5", "SPDC::efficiencies(ranges, integrator) is not efficiencies_from_counts(counts_coincidences, counts_singles_signal, "
                                     "counts_singles_idler) of the same object, ranges and integrator (or a counts_* method differs from its free function): "
                                     f"method {[f64_of_hex(x) for x in o['method']]}, from counts {[f64_of_hex(x) for x in o['from_counts']]}",
                               {"kind": "wrapper_efficiencies"}, det)
@@ -80,17 +94,17 @@ def oracle(ctx, obs):
         ctx.count("pms:" + ("poled" if o["poled"] else "unpoled"))
         good.append(o)
         if not o.get("ok"):
-            ctx.violation("S5", f"phasematch_sinc / phasematch_gaussian / SPDC::delta_k panic: {o.get('panic')}", {"kind": "pms_panic"}, det)
+            report("S5", f"phasematch_sinc / phasematch_gaussian / SPDC::delta_k panic: {o.get('panic')}", {"kind": "pms_panic"}, det)
             continue
         if o["dk"] != o["dk_direct"]:
-            ctx.violation("S5", "SPDC::delta_k(omega_s, omega_i) differs from delta_k(omega_s, omega_i, &signal, &idler, &pump, &crystal_setup, &pp): "
+            report("S5", "SPDC::delta_k(omega_s, omega_i) differs from delta_k(omega_s, omega_i, &signal, &idler, &pump, &crystal_setup, &pp): "
                                 f"{[f64_of_hex(x) for x in o['dk']]} vs {[f64_of_hex(x) for x in o['dk_direct']]}"
                                 + (" (it equals the call with the two frequencies exchanged)" if o["dk"] == o["dk_swapped"] else ""),
                           {"kind": "wrapper_delta_k"}, det)
         if o["dk_swapped"] != o["dk_direct"]:
             sensitive += 1
         if any(f64_of_hex(v[1]) != 0.0 for v in (o["pm_sinc"], o["pm_gaussian"])):
-            ctx.violation("S5", "phasematch_sinc / phasematch_gaussian returned a non-real value", {"kind": "pms_not_real"}, det)
+            report("S5", "phasematch_sinc / phasematch_gaussian returned a non-real value", {"kind": "pms_not_real"}, det)
         dk = [f64_of_hex(x) for x in o["dk_direct"]]
         L, wx, wy = f64_of_hex(o["L"]), f64_of_hex(o["wx"]), f64_of_hex(o["wy"])
         arg = 0.5 * L * dk[2]
@@ -98,7 +112,7 @@ def oracle(ctx, obs):
         e_gauss = math.exp(-0.193 * arg * arg)
         for nm, got, exp in (("phasematch_sinc", f64_of_hex(o["pm_sinc"][0]), e_sinc), ("phasematch_gaussian", f64_of_hex(o["pm_gaussian"][0]), e_gauss)):
             if not abs(got - exp) <= 1e-9:
-                ctx.violation("S5", f"{nm} = {got!r}, but on Delta k = {dk} (L = {L}, pump waist {wx} x {wy}) the formula gives {exp!r}",
+                report("S5", f"{nm} = {got!r}, but on Delta k = {dk} (L = {L}, pump waist {wx} x {wy}) the formula gives {exp!r}",
                               {"kind": "pms_value", "quantity": nm}, det)
     return good, sensitive
 
@@ -107,17 +121,20 @@ def run_stage(ctx, binp=None, part="all", n=None):
     """returns the number of disagreeing goals; violations and broken obligations are registered on ctx"""
     files, gens, op = PARTS[part]
     binp = binp or build_harness(ctx)
-    for m in getattr(ctx, "gen_msgs_all", []):      # set by regen(): a refused source construct is a broken obligation here
-        if any(m.rstrip().endswith(f"[generator {g}]") for g in gens) and not any(m == pf[2] for pf in ctx.proof_failures):
-            ctx.proof_failures.append(("Gen/", "translator", m))
+    n0 = len(ctx.proof_failures)
+    for m in auxprops.refusals(ctx, gens):      # a refused source construct is a broken obligation of the auxiliary composition
+        if not any(m == pf[2] for pf in ctx.proof_failures):
+            ctx.proof_failures.append(("Gen/W_*.v / Gen/PMSimple.v / Gen/GridRes.v", "translator", m))
     ok, fails, _ = coq_build(ctx, files, timeout=1500)
     if not ok:
-        ctx.proof_failures.extend(f for f in fails if f not in ctx.proof_failures)
-        ctx.note(f"wrappers ({part}): a lemma file did not build against the generated definitions; the generated definitions are not compared, "
+        ctx.proof_failures.extend(f for f in fails if not any(f[1:] == g[1:] and str(g[0]).endswith(str(f[0])) for g in ctx.proof_failures))
+    auxprops.label_failures(ctx, n0)
+    if not ok:
+        ctx.note(f"auxiliary model (wrappers, {part}): a lemma file did not build against the generated definitions; the generated definitions are not compared, "
                  "the implementation is still checked (S5)")
     if part == "all":     # stand-alone: nobody else scans / audits these files
         deps = sorted({d for f in files for d in deps_of(f[:-1])})
-        for f, ln, w in static_scan(ctx, [d for d in deps if d.startswith(("Proofs/Compose_", "Gen/Wrappers", "Gen/GridRes", "Gen/PMSimple"))]):
+        for f, ln, w in static_scan(ctx, [d for d in deps if d.startswith(("Proofs/Compose_", "Gen/W_", "Gen/WrapBase", "Gen/GridRes", "Gen/PMSimple"))]):
             ctx.proof_failures.append((f, f"line {ln}", f"forbidden vernacular `{w}`"))
         for f in (files[:-1] if ok else []):
             a = audit_assumptions(ctx, f[:-1])
@@ -152,7 +169,7 @@ def run_stage(ctx, binp=None, part="all", n=None):
         if good_ or cid not in meta:
             continue
         nbad += 1
-        ctx.violation("S4", f"generated definition and implementation disagree ({cid.split('_', 1)[1]})",
+        ctx.violation("S4", AUX + f"generated definition and implementation disagree ({cid.split('_', 1)[1]})",
                       {"kind": "pms_model_mismatch", "quantity": cid.split("_", 1)[1]}, {"stage": STAGE, "case": cid, "observation": meta[cid]}, found_input=False)
     return nbad
 
@@ -181,7 +198,7 @@ def run(ctx):
     msgs, spans = regen(ctx, GENERATORS)
     run_stage(ctx, binp, "all")
     ctx.cov["rule"] = "random SPDC objects (crystal length, elliptic pump waist, non-collinear signal + optimum idler, poled/unpoled), random frequencies and arguments"
-    ctx.cov["clauses"] = {"forwarders: callee, argument order, field updates": "pinned by reflexivity against the generated definitions (Compose_wrappers, Compose_wrappers_eff, Compose_gridres)",
+    ctx.cov["clauses"] = {"forwarders: callee names, argument expressions, argument order, field updates": "pinned by reflexivity against the generated string lists and definitions, callees bound by name (Compose_wrappers_c03 / _eff / _misc, Compose_gridres)",
                           "generated small functions = implementation": "interval goals (Compose_pmsimple_cases)",
                           "SPDC::delta_k = delta_k on the object's fields; SPDC::efficiencies = efficiencies_from_counts of the three rates": "bit-exact comparison on every case"}
     return finish(ctx, assumptions=["every callee of a forwarder is a parameter of its generated definition"])
